@@ -21,6 +21,13 @@ import TorrentVerif.Model.Options
         errorState (operation <opindex> raises, after <prefixlen> bytes if it is the write; then
         the finally clause); `none` = the encoder raises; same answer format as editcrash
   editcrashold <crashpoint> <prefixlen> <old-hex> <new-hex>    same for the pre-fix order
+  editcrashl <crashpoint> <prefixlen> <old-hex> <new-hex> <leftover-hex|none>
+  editerrorl <opindex> <prefixlen> <old-hex> <new-hex|none> <leftover-hex|none>
+        the same two for Impl.editOpsFrom on the filesystem {m ↦ old, m.part ↦ leftover, x ↦ "bystander"}
+        (`none` = no leftover: then identical to editcrash / editerror; `-` = an empty leftover file);
+        with a leftover the operation indices are 0 load, 1 remove leftover, 2 open, 3 write, 4 replace;
+        editerrorl uses Impl.editError (an error in the load, index 0, skips the finally clause)
+  ops editl <metafile-hex> <0|1: encodable> <0|1: leftover .part exists>     Impl.editOpsFrom
   ops edit <metafile-hex> <0|1: encodable>                    Impl.editOps, rendered (see below)
   ops create <outfile-hex|none> <cwd-hex> <name-hex> <0|1: probe path exists> <payload path hex>...
   ops rename <target-hex> <newpath-hex> <0|1: target exists> <0|1: newpath exists>
@@ -220,6 +227,21 @@ def handleG5 : List String → Option (Except String String)
     let n ← if n = "none" then pure none else (do pure (some (← hexTok n)))
     .ok (editView o (n.getD []) (errorState [("m", o), ("x", bystander)] (Impl.editOps "m" n)
       (Impl.editFinally "m") i k))
+  | ["editcrashl", c, k, o, n, l] => some do
+    let c ← natTok c; let k ← natTok k; let o ← hexTok o; let n ← hexTok n
+    let fs : FS ← if l = "none" then pure [("m", o), ("x", bystander)]
+      else (do pure [("m", o), (Impl.partPath "m", ← hexTok l), ("x", bystander)])
+    .ok (editView o n (crashState fs (Impl.editOpsFrom fs "m" (some n)) c k))
+  | ["editerrorl", i, k, o, n, l] => some do
+    let i ← natTok i; let k ← natTok k; let o ← hexTok o
+    let n ← if n = "none" then pure none else (do pure (some (← hexTok n)))
+    let fs : FS ← if l = "none" then pure [("m", o), ("x", bystander)]
+      else (do pure [("m", o), (Impl.partPath "m", ← hexTok l), ("x", bystander)])
+    .ok (editView o (n.getD []) (Impl.editError fs "m" n i k))
+  | ["ops", "editl", mf, e, l] => some do
+    let mf ← strTok mf; let e ← bit e; let l ← bit l
+    let fs : FS := if l then [(Impl.partPath mf, [])] else []
+    .ok (opsStr (Impl.editOpsFrom fs mf (if e then some [] else none)))
   | ["ops", "edit", mf, e] => some do
     let mf ← strTok mf; let e ← bit e
     .ok (opsStr (Impl.editOps mf (if e then some [] else none)))
